@@ -1,6 +1,7 @@
 """C09 queue timing — FIFO discipline of the hop's container, backlogged hop
 never idle, zero-bandwidth branch, time base and truncation of the
 serialisation delay. The departure-time formula as such is not decided."""
+import re
 import q, engines, handlers
 from simlib import is_node, strip_targs, walk
 
@@ -283,6 +284,18 @@ SIM = 'sim::simulation'
 TCPS = 'sim::asio::ip::tcp::socket'
 
 
+def _norm_obj(t):
+    """`*s`, `(*s)`, `s` name the same object (a helper that takes the socket by reference instead of by pointer)"""
+    t = (t or '').strip()
+    while t.startswith('(') and t.endswith(')'):
+        t = t[1:-1].strip()
+    return t.lstrip('*&').strip()
+
+
+def _is_member(base, name):
+    return bool(base) and re.search(r'(->|\.)%s$' % name, base) is not None
+
+
 def _index_value(fn, e):
     """integer literal an array index denotes, or None"""
     return q.int_value(q.strip_casts(e))
@@ -317,7 +330,7 @@ def _route_end(fn, t):
     if is_node(t) and t['k'] == 'call':
         nm = (q.callee_name(t) or '').split('::')[-1]
         if nm in ('get_outgoing_route', 'get_incoming_route') and is_node(t.get('obj')):
-            return ('out' if nm == 'get_outgoing_route' else 'in'), q.render(fn, t['obj'])
+            return ('out' if nm == 'get_outgoing_route' else 'in'), _norm_obj(q.render(fn, t['obj']))
     return None, None
 
 
@@ -336,11 +349,11 @@ def connector_index(fx):
         if lhs is None:
             continue
         base, idx = _subscript(ic, lhs)
-        if base is None or not base.endswith('->ep'):
+        if not _is_member(base, 'ep'):
             continue
         r = q.strip_casts(rhs)
         if is_node(r) and r['k'] == 'call' and is_node(r.get('obj')):
-            owner[_index_value(ic, idx)] = q.render(ic, r['obj'])
+            owner[_index_value(ic, idx)] = _norm_obj(q.render(ic, r['obj']))
     return ic, me, owner
 
 
@@ -354,6 +367,7 @@ def channel_orientation_rules(run):
     run.touch(ic)
     if set(owner) != {0, 1} or me not in owner.values():
         run.broke('simulation::internal_connect: c->ep[0]/c->ep[1] = <socket>->local_bound_to() idiom not found (%s)' % owner)
+        return
     nh = 0
     for n in ic.all_nodes():
         lhs = rhs = None
@@ -362,7 +376,7 @@ def channel_orientation_rules(run):
         if lhs is None:
             continue
         base, idx = _subscript(ic, lhs)
-        if base is None or not base.endswith('->hops'):
+        if not _is_member(base, 'hops'):
             continue
         j = _index_value(ic, idx)
         terms = _route_terms(ic, rhs)
@@ -383,7 +397,7 @@ def channel_orientation_rules(run):
             continue
         rhs = a.site['args'][1] if a.site['k'] == 'call' else a.site.get('rhs')
         base, idx = _subscript(ic, rhs)
-        run.check(base is not None and base.endswith('->hops') and _index_value(ic, idx) == 1 - k, 'R4', 'route-orientation', ic.norm + ': SYN route', ic.loc(a.site),
+        run.check(_is_member(base, 'hops') and _index_value(ic, idx) == 1 - k, 'R4', 'route-orientation', ic.norm + ': SYN route', ic.loc(a.site),
                   'the SYN is routed on %s, not on the hops towards the listening socket (hops[%d])' % (q.render(ic, rhs), 1 - k), 'SYN uses hops[%d], towards the acceptor' % (1 - k))
     # sockets: hops[] is indexed by remote_idx(own endpoint) only
     ns = 0
@@ -421,11 +435,11 @@ def channel_orientation_rules(run):
             continue
         base = q.render(ai, n.get('base'))
         j = _index_value(ai, n.get('idx'))
-        if base.endswith('->ep'):
+        if _is_member(base, 'ep'):
             na += 1
             run.check(j == k, 'R4', 'accepted-side-peer', '%s: %s[%s]' % (ai.norm, base, j), ai.loc(n),
                       'the accepted socket takes its peer from ep[%s]; the connecting side is ep[%d] (ep[%s] is the accepted socket itself, so e.g. the path MTU is looked up for (own address, own address))' % (j, k, j), 'peer is ep[%d], the connector' % k)
-        elif base.endswith('->hops'):
+        elif _is_member(base, 'hops'):
             na += 1
             run.check(j == 1 - k, 'R4', 'accepted-side-route', '%s: %s[%s]' % (ai.norm, base, j), ai.loc(n),
                       'the accepted socket installs itself at the end of hops[%s]; the route that leads to it is hops[%d]' % (j, 1 - k), 'own end of hops[%d]' % (1 - k))
